@@ -76,10 +76,11 @@ CHECKS.update({
         engine="KeepAlive", category="model_checking",
         text=("KeepAlive.tla models the ticker loop of startKeepalive with an explicit clock and an environment-chosen ping outcome script; TLC checks Accuracy/Completeness/"
               "Timing/SilentStop/NoLeftovers exhaustively for all 5461 scripts over {answered, timed-out, method-not-found, connection-error} up to length 6 x thresholds x owner "
-              "closing idle/in-flight (241k states) and exports all 43 688 behaviours. Every behaviour runs on the real code under synctest at the function level, and every "
+              "closing idle / with a ping in flight / while a request handler keeps Close waiting 1-2 intervals (session levels; 504k states) and exports all 87 376 cases; ping "
+              "attempts are observed by a sending middleware. Every behaviour runs on the real code under synctest at the function level, and every "
               "distinct run on a real ServerSession and a real legacy ClientSession against a scripted peer; the TLA+ monitor KeepAliveMon judges the virtual-time observations."),
         design_ref="DESIGN.md section 6 C13",
-        note="Trusted: TLC; testing/synctest virtual time; the scripted peer/Connection; the goroutine-dump census; script length <= 6.",
+        note="Trusted: TLC; testing/synctest virtual time; the scripted peer/Connection; the goroutine-dump census (and the goroutine-count heuristic deciding when to take it); script length <= 6.",
         technique="TLA+ spec + TLC exhaustive; exhaustive replay of TLC-generated cases into real code with quiescence/leak check; TLA+ monitor",
     ),
     "C15": dict(
